@@ -453,6 +453,101 @@ def r10_loaders_keep_every_entry(ctx):
             yield Ob('%s:%s entries are keyed by their own %s' % (mod, qual, keyname), ok, ctx.floc(fn, keys[0]), '' if ok else 'key is %s' % norm(keys[0].slice))
 
 
+class _PathM(object):
+    """model of path.X12Path for the lookup rule (the class itself is decided by C17.R1-R3): loops, then an optional
+    designator SEG[QUAL]NN-C"""
+    _sa_model = True
+
+    def __init__(self, text):
+        import re as _re
+        self.relative = not text.startswith('/')
+        items = [x for x in text.strip('/').split('/')] if text.strip('/') else []
+        self.seg_id = self.id_val = self.ele_idx = self.subele_idx = None
+        if items:
+            m = _re.match(r'^([A-Z][A-Z0-9]{1,2})?(\[([A-Z0-9]+)\])?([0-9]{2})?(-([0-9]+))?$', items[-1])
+            if m and (m.group(1) or m.group(4)):
+                items.pop()
+                self.seg_id, self.id_val = m.group(1), m.group(3)
+                self.ele_idx = int(m.group(4)) if m.group(4) else None
+                self.subele_idx = int(m.group(6)) if m.group(6) else None
+        self.loop_list = list(items)
+
+    def empty(self):
+        return not self.loop_list and self.seg_id is None and self.ele_idx is None
+
+    def format(self):
+        rd = (self.seg_id or '') + ('[%s]' % self.id_val if self.id_val and self.seg_id else '') + ('%02d' % self.ele_idx if self.ele_idx else '') \
+            + ('-%d' % self.subele_idx if self.subele_idx and self.ele_idx else '')
+        return ('' if self.relative else '/') + '/'.join(self.loop_list + ([rd] if rd else []))
+
+
+class _ChildM(object):
+    _sa_model = True
+
+    def __init__(self, kind, id, quals=()):
+        self.kind, self.id, self.quals = kind, id, quals
+
+    def is_loop(self):
+        return self.kind == 'loop'
+
+    def is_segment(self):
+        return self.kind == 'seg'
+
+    def getnodebypath(self, rest):
+        return ('descend', self.id, self.quals, rest)
+
+    def getnodebypath2(self, rest):
+        return ('descend', self.id, self.quals, rest)
+
+    def get_unique_key_id_element(self, idv):
+        return 'ele' if idv in self.quals else None
+
+    def __repr__(self):
+        return '%s %s%s' % (self.kind, self.id, list(self.quals) if self.quals else '')
+
+
+def r15_lookup_semantics(ctx):
+    """both path lookups of a loop, decided by constant propagation on a model loop whose positions hold: a single
+    segment, a loop AND a segment at the same position, two same-id segments told apart by qualifier, a loop alone.
+    Every child of every position is a candidate: a segment is found whatever shares its position, a loop id continues
+    in that loop with the rest of the path, a qualifier picks the sibling that owns it, an unknown name is an
+    EngineError (never a wrong node)."""
+    from ..absint import run_function, helper_oracles, NotClosedTest
+    hf = helper_oracles(ctx, 'map_if')
+    A_, L1, B_, C1, C2, L2 = (_ChildM('seg', 'AAA'), _ChildM('loop', 'HEADER'), _ChildM('seg', 'BBB'), _ChildM('seg', 'CCC', ('Q1',)),
+                              _ChildM('seg', 'CCC', ('Q2', 'Q3')), _ChildM('loop', '2000'))
+    pos_map = A.FrozenDict({10: (A_,), 20: (L1, B_), 30: (C1, C2), 40: (L2,)})
+    for meth in ('getnodebypath', 'getnodebypath2'):
+        fn = ctx.func('map_if', 'loop_if.' + meth)
+        new = meth.endswith('2')
+        # (path, expected): a child itself, ('descend', child, rest) or 'EngineError'
+        cases = [('AAA', A_), ('BBB', B_), ('HEADER', L1), ('2000', L2), ('header', L1), ('CCC[Q1]', C1), ('CCC[Q3]', C2), ('CCC[ZZ]', 'EngineError'),
+                 ('ZZZ', 'EngineError'), ('HEADER/NM1', ('descend', L1, 'NM1')), ('2000/2300/CLM', ('descend', L2, '2300/CLM')), ('9999/NM1', 'EngineError')]
+        if new:
+            cases += [('BBB02', B_), ('CCC[Q2]03-1', C2)]
+        bad = []
+        for text, want in cases:
+            try:
+                ordered = tuple(c for k in sorted(pos_map) for c in pos_map[k])
+                got = run_function(ctx.cfg(fn), fn, [None, text], dict(hf, **{'path.X12Path': _PathM, 'pyx12.path.X12Path': _PathM, 'X12Path': _PathM,
+                                                                             'self.childIterator': lambda: ordered}),
+                                   env={'self.pos_map': pos_map})
+            except (NotClosedTest, A.NotClosed) as e:
+                raise AnalysisError('loop_if.%s cannot be decided for %r: %s' % (meth, text, e))
+            if isinstance(got, tuple) and got[:1] == ('descend',):
+                child = [c for c in (A_, L1, B_, C1, C2, L2) if c.id == got[1] and c.quals == got[2]][0]
+                if child.kind == 'seg' and new:
+                    got = child        # the segment continues with its own designator: the segment is what was found
+                else:
+                    got = ('descend', child, got[3])
+            if isinstance(got, tuple) and got[:1] == ('raises',):
+                got = got[1]
+            if got != want and not (got is want):
+                bad.append('%r finds %s, expected %s' % (text, got, want))
+        yield Ob('map_if:loop_if.%s finds every child by its own name, whatever shares its position' % meth, not bad, ctx.floc(fn),
+                 '' if not bad else '; '.join(bad[:3]), note='%d paths' % len(cases))
+
+
 def r11_designator_levels(ctx):
     """a component is fetched by the designator it reports: segment_if.getnodebypath2 looks the element up by the
     element index of the path and, in the element found, the component by the component index - each level with its
@@ -721,5 +816,6 @@ RULES = [
     Rule('C16.R12', 'index lookups read the whole key; the scan condition finds every entry by its own key (evaluated over maps.xml)', r12_lookup_by_own_key, floor=6),
     Rule('C16.R14', 'shared with C17.R1/R5: every node path parses into the node\'s own parts under the path grammar', r14_paths_parse, floor=2000),
     Rule('C16.R13', 'loop_if.__init__ / guess_unique_key_id_element interpreted over every map: same-position segments get the model\'s qualifier suffix', r13_suffix_code_over_data, floor=100),
+    Rule('C16.R15', 'both loop lookups decided by constant propagation on a model loop (shared positions, qualifiers, unknown names)', r15_lookup_semantics, floor=2),
     Rule('C16.R11', 'getnodebypath2 uses the element index for the element and the component index for the component', r11_designator_levels, floor=2),
 ]
